@@ -119,6 +119,10 @@ class Parser:
                 self.pos += 1
                 rule_doc.append(self.eat(TokenKind.COMMENT_TEXT).value)
 
+            if rule_doc and self.current().kind == TokenKind.EOI:
+                # Trailing documentation comments without a rule.
+                break
+
             identifier = self.eat(TokenKind.IDENTIFIER)
             self.eat(TokenKind.ASSIGN_OP)
             modifier = self.parse_modifier()
